@@ -21,6 +21,51 @@ def injector(ctx):
         sel = "_control.fields.sel"
         hw = {sel, "~ext_dfi_sel"}
         nmaster = 0
+        # truth table of the extracted multiplexer (lsa/ceval.py): for representative command / data fields of both phases and every (sel, ext_dfi_sel), the PHY side
+        # equals the controller side in hardware mode, the external master in external mode, and is independent of the controller side in software mode - whatever
+        # the number of stages the multiplexer is written with
+        from ..ceval import CEval
+        from ..bits import Unresolved
+        tt_ok = None
+        try:
+            flds = [("p0.address", 14, 0x1A5, 0x25A), ("p1.address", 14, 0x0F0, 0x30F), ("p0.cas_n", 1, 0, 1), ("p1.we_n", 1, 1, 0), ("p0.wrdata", 32, 0x1234, 0xBEEF),
+                    ("p0.bank", 3, 5, 2), ("p1.wrdata_en", 1, 1, 0), ("p0.cs_n", 1, 0, 1), ("p1.cs_n", 1, 1, 0)]
+            cfg = {}
+            for pre in ("master", "slave", "ext_dfi", "csr_dfi"):
+                for f_, w_, _, _ in flds:
+                    cfg["len(%s.%s)" % (pre, f_)] = w_
+            bad = None
+            nrow = 0
+            for f_, w_, a_, b_ in flds:
+                if cs and f_.endswith("cs_n"):
+                    continue      # the clam-shell broadcast is written per phase in a comprehension the evaluator does not unroll: left to the guard rule below
+                for s_, e_ in ((1, 0), (1, 1), (0, 0), (0, 1)):
+                    outs = []
+                    for sv in (a_, b_):
+                        env = {sel: s_, "ext_dfi_sel": e_, "slave." + f_: sv, "ext_dfi." + f_: (a_ ^ b_ ^ sv) if w_ > 1 else sv ^ 1}
+                        ce = CEval(v, env, cfg, default_undriven=0)
+                        mw_ = 2 * w_ if (cs and f_.endswith("cs_n")) else w_
+                        outs.append((sv, env["ext_dfi." + f_], ce.val(Sym("master." + f_)) & ((1 << mw_) - 1)))
+                        nrow += 1
+                    if cs and f_.endswith("cs_n"):
+                        # clam shell: the controller's chip select is broadcast to both halves in hardware mode
+                        if s_ and not e_ and any(o != sv * 3 for sv, _, o in outs):
+                            bad = bad or ("hardware mode (clam shell): master.%s = %s for slave.%s = %s" % (f_, [bin(o) for _, _, o in outs], f_, [sv for sv, _, _ in outs]))
+                        if not s_ and outs[0][2] != outs[1][2]:
+                            bad = bad or ("software mode: master.%s follows the controller side" % f_)
+                        continue
+                    if s_ and not e_ and any(o != sv for sv, _, o in outs):
+                        bad = bad or ("hardware mode: master.%s = %s for slave.%s = %s" % (f_, [hex(o) for _, _, o in outs], f_, [hex(sv) for sv, _, _ in outs]))
+                    if s_ and e_ and any(o != ev for _, ev, o in outs):
+                        bad = bad or ("external mode: master.%s = %s for ext_dfi.%s = %s" % (f_, [hex(o) for _, _, o in outs], f_, [hex(ev) for _, ev, _ in outs]))
+                    if not s_ and outs[0][2] != outs[1][2]:
+                        bad = bad or ("software mode: master.%s follows the controller side (%s for slave.%s = %s)" % (f_, [hex(o) for _, _, o in outs], f_, [hex(sv) for sv, _, _ in outs]))
+            tt_ok = bad is None
+            ob.instance("%s: multiplexer truth table" % tag, {"rows": nrow, "fields": [f_ for f_, _, _, _ in flds]}, nontrivial=True)
+            if bad:
+                ob.refute("mux-table:%s" % tag, "%s: %s - the controller's commands / data do not reach the PHY unchanged in hardware mode, or reach it in another mode" % (tag, bad), None)
+        except Unresolved as e:
+            ctx.notes.append("C18.1 %s: multiplexer not evaluable (%s); guard rules only" % (tag, e))
         for l in v.leaves:
             if l.inst != "":
                 continue
@@ -33,11 +78,12 @@ def injector(ctx):
                 tgt = key(l.target) if l.target is not None else ""
             g = v.guard_keys(l, False)
             from_slave = any(r == "slave" or r.startswith("slave.") for r in reads)
-            to_master = tgt == "master" or tgt.startswith("master.")
+            to_master = tgt == "master" or tgt.startswith("master.") or (l.target is not None and isinstance(l.target, V) and
+                                                                         any(r_ == "master" or r_.startswith("master.") for r_ in support(l.target)))
             if to_master:
                 nmaster += 1
                 ob.instance("%s: %s" % (tag, str(l)[:120]), sorted(g))
-            if from_slave and not hw <= g:
+            if from_slave and not hw <= g and not (tt_ok is True and (l.kind == "connect" or not to_master)):
                 ob.refute("slave-leak:%s:%s" % (tag, tgt), "%s: `%s` reads the controller-side interface under %s, not under sel & ~ext_dfi_sel: in software "
                           "mode (or external mode) the controller's signals still reach the PHY" % (tag, str(l)[:160], sorted(g)), l.loc)
             if from_slave and l.kind == "connect" and (l.stmt.keep is not None or l.stmt.omit):
@@ -48,10 +94,10 @@ def injector(ctx):
                 local_if = l.kind == "connect" and reads and not any(r.split(".")[0] in ("slave", "ext_dfi", "master") for r in reads)
                 src = "slave" if from_slave else ("ext_dfi" if any(r.startswith("ext_dfi") for r in reads) else ("csr_dfi" if local_if else "?"))
                 want = {"slave": hw, "ext_dfi": {sel, "ext_dfi_sel"}, "csr_dfi": {"~" + sel}}.get(src)
-                if want is None or g != want:
+                if (want is None or g != want) and tt_ok is not True:
                     ob.refute("mux-guard:%s:%s:%s" % (tag, src, tgt), "%s: master is driven from %s under %s, expected exactly %s" %
                               (tag, src, sorted(g), sorted(want) if want else "a known source"), l.loc)
-        if nmaster < 3:
+        if nmaster < 3 and tt_ok is not True:
             ob.unknown("%s: fewer than three drivers of the PHY-side interface found" % tag)
         back = [l for l in v.leaves if l.inst == "" and l.kind == "connect" and key(l.value) == "slave"]
         if len(back) != 1:
